@@ -199,7 +199,8 @@ ENTRY = {
     "KronScaled": ["matvec", "inv", "slogdet"],
     "KronPlusDiag": ["matvec", "matmat", "diag", "trace"],
 }
-ALG_VARIANTS = {"inv": ["omitted", "Auto", "LU", "Cholesky"], "solve": ["omitted", "Auto"], "logdet": ["omitted", "Auto", "LU"], "slogdet": ["omitted", "Auto"],
+ALG_VARIANTS = {"cholesky": ["function", "object-call"], "plu": ["function", "object-call"],  # cholesky(A) / Cholesky()(A), plu(A) / LU()(A)
+                "inv": ["omitted", "Auto", "LU", "Cholesky"], "solve": ["omitted", "Auto"], "logdet": ["omitted", "Auto", "LU"], "slogdet": ["omitted", "Auto"],
                 "diag": ["omitted", "Exact"], "trace": ["omitted", "Exact"], "sqrt": ["omitted", "Auto", "Eigh"], "isqrt": ["omitted", "Eigh"],
                 "pow2.5": ["omitted", "Auto", "Eigh"], "pow-1": ["omitted", "Auto"], "pow-2": ["omitted", "Eigh"], "pow3": ["omitted"], "pow10": ["omitted", "Eigh"],
                 "pow0.5f32": ["omitted", "Eigh"], "exp": ["omitted", "Auto", "Eigh"], "log": ["omitted", "Eigh"],
@@ -218,7 +219,7 @@ def gen(tier, rng, shard, nshards):
 
 def algs(name):
     from cola import linalg as L
-    return {"omitted": (), "-": (), "Auto": (L.Auto(), ), "LU": (L.LU(), ), "Cholesky": (L.Cholesky(), ), "Exact": (L.Exact(), ), "Eigh": (L.Eigh(), )}[name]
+    return {"omitted": (), "-": (), "function": (), "object-call": (), "Auto": (L.Auto(), ), "LU": (L.LU(), ), "Cholesky": (L.Cholesky(), ), "Exact": (L.Exact(), ), "Eigh": (L.Eigh(), )}[name]
 
 
 def run_case(ctx, case):
@@ -282,10 +283,10 @@ def run_case(ctx, case):
         if e == "cholesky":
             # (only forward products: the adjoint of a Kronecker factor would go through the harness shim's
             # linear_transpose, which materialises the map - that is the shim's cost, not cola's)
-            Lf = cholesky(A)
+            Lf = cholesky(A) if case["alg"] != "object-call" else L.Cholesky()(A)
             return Lf @ x
         if e == "plu":
-            Pf, Lf, Uf = plu(A)
+            Pf, Lf, Uf = plu(A) if case["alg"] != "object-call" else L.LU()(A)
             return Pf @ (Lf @ (Uf @ x))
         raise ValueError(e)
 
